@@ -7,8 +7,8 @@
 (*   process_io_buffer      the drain loop (1206-1238)                         *)
 (*   _read_frame_header     header parse, sets _current_frame (1165-1181)      *)
 (*   process_msg            hands (header, body) to the handler registered in  *)
-(*                          _requests[stream] or, for stream < 0, to the push  *)
-(*                          watchers (1240-1306)                               *)
+(*                          _requests[stream] or, for ANY stream < 0 (not only *)
+(*                          -1), to the push watchers (1240-1306)              *)
 (*   _ConnectionIOBuffer    reset_io_buffer: keep only the unread tail         *)
 (*                                                                            *)
 (* Abstraction.  The wire is a sequence of *tagged* bytes <<i, p>> = byte p of *)
@@ -27,6 +27,9 @@ EXTENDS Integers, Sequences, FiniteSets, TLC
 CONSTANTS Vers,        \* protocol versions of the frame headers (subset of 1..4; 5 in Segments.tla)
           PosLens,     \* body lengths of responses (stream id >= 0)
           NegLens,     \* body lengths of server pushes (stream id < 0)
+          PushIds,     \* magnitudes m of the stream ids -m the server may put on a push: any negative id of the
+                       \* header's width (v1/v2: a signed byte, -128..-1; v3+: a signed short, -32768..-1)
+                       \* (magnitudes because a TLC configuration file has no negative numbers)
           MinFrames,
           MaxFrames,   \* Init picks any sequence of MinFrames..MaxFrames shapes
           AbsHdr       \* header length used for ver >= 5 (Segments.tla scales it down; 9 in reality)
@@ -42,8 +45,11 @@ VARIABLES frames,      \* what the server sends: Seq(Kinds)
           desync       \* a header was parsed from bytes that are not a header
 fvars == <<frames, wire, sent, buf, cur, delivered, pushed, order, desync>>
 
-(* frame shapes: neg = server push (negative stream id) *)
-Kinds == [ver : Vers, neg : {FALSE}, blen : PosLens] \cup [ver : Vers, neg : {TRUE}, blen : NegLens]
+(* frame shapes: neg = server push; sid = the (negative) stream id it carries, 0 for a response, *)
+(* whose stream id is the one of the request it answers (StreamOf)                              *)
+MinSid(v) == IF v <= 2 THEN -128 ELSE -32768
+Kinds == [ver : Vers, neg : {FALSE}, blen : PosLens, sid : {0}]
+         \cup {k \in [ver : Vers, neg : {TRUE}, blen : NegLens, sid : {0 - m : m \in PushIds}] : k.sid < 0 /\ k.sid >= MinSid(k.ver)}
 
 HdrLen(v) == IF v <= 2 THEN 8 ELSE IF v <= 4 THEN 9 ELSE AbsHdr
 FrameLenOf(f) == HdrLen(f.ver) + f.blen
@@ -60,7 +66,7 @@ WireLen == SumLen(frames, Len(frames))
 
 (* The handler registered for a response is found through the stream id of its *)
 (* header; frame i answers the request registered under stream id i.           *)
-StreamOf(fs, i) == IF fs[i].neg THEN -1 ELSE i
+StreamOf(fs, i) == IF fs[i].neg THEN fs[i].sid ELSE i
 ExpectedBody(fs, i) == [p \in 1..fs[i].blen |-> <<i, HdrLen(fs[i].ver) + p>>]
 
 FrameSeqs == UNION {[1..n -> Kinds] : n \in MinFrames..MaxFrames}
@@ -155,7 +161,7 @@ Inv_Exact ==
     /\ \A j \in 1..Len(delivered) :
           LET d == delivered[j] IN d.exact /\ d.len = frames[d.idx].blen /\ d.stream = d.idx
     /\ \A j \in 1..Len(pushed) :
-          LET d == pushed[j] IN d.exact /\ d.len = frames[d.idx].blen /\ d.stream < 0
+          LET d == pushed[j] IN d.exact /\ d.len = frames[d.idx].blen /\ d.stream < 0 /\ d.stream = frames[d.idx].sid
 
 (* nothing is lost or delivered in part: the buffer is exactly the unconsumed tail *)
 Inv_NoPartial ==
@@ -177,12 +183,16 @@ Witness_PartialHeader == ~(Len(buf) > 0 /\ cur = 0)
 Witness_PartialBody   == ~(cur # 0 /\ Len(buf) > HdrLen(frames[cur].ver))
 Witness_Pushed        == ~(Len(pushed) > 0 /\ Len(delivered) > 0)
 Witness_AllDone       == ~(sent = WireLen /\ NDone = N /\ N >= MinFrames)
+Witness_PushOtherId   == ~(\E j \in 1..Len(pushed) : pushed[j].stream < -1)                       \* a push not on stream -1
+Witness_PushMinId     == ~(\E j \in 1..Len(pushed) : pushed[j].stream = MinSid(frames[pushed[j].idx].ver))
 
 (* One TLC run (-workers 1, CONSTRAINT WitnessScan) reports every witness whose negation is reached, *)
 (* each once: <<"WITNESS", name>>.                                                                   *)
-FWitnessNames == <<"Witness_PartialHeader", "Witness_PartialBody", "Witness_Pushed", "Witness_AllDone">>
+FWitnessNames == <<"Witness_PartialHeader", "Witness_PartialBody", "Witness_Pushed", "Witness_AllDone",
+                   "Witness_PushOtherId", "Witness_PushMinId">>
 FWitnessReached(i) == CASE i = 1 -> ~Witness_PartialHeader [] i = 2 -> ~Witness_PartialBody
                         [] i = 3 -> ~Witness_Pushed [] i = 4 -> ~Witness_AllDone
+                        [] i = 5 -> ~Witness_PushOtherId [] i = 6 -> ~Witness_PushMinId
 ASSUME \A i \in 1..20 : TLCSet(100 + i, 0)
 WitnessScan == \A i \in 1..Len(FWitnessNames) :
     (FWitnessReached(i) /\ TLCGet(100 + i) = 0) => (TLCSet(100 + i, 1) /\ PrintT(<<"WITNESS", FWitnessNames[i]>>))
